@@ -120,6 +120,25 @@ Theorem C06_print_check_sound : forall f1 f2 nest s sa acc sa' acc',
   stmt_ok (evaluate_print_statement f1 nest s).
 Proof. exact checked_print_does_not_fail_on_types. Qed.
 
+(* ... and for EVERY statement that neither branches nor jumps, at the level of
+   the two dispatchers ([edispatch] / [adispatch] are the dispatch tables of
+   evaluate_statement_body / an_statement_body, by reflexivity): whichever of
+   v = e, LET, PRINT, ?, DIM, FOR..TO..STEP, READ, RESTORE, REM, DATA or ":" the
+   cursor has just passed, if the checker accepts the statement the
+   interpreter executes it without a syntax error or a type mismatch and the
+   two cursors are together again behind it ([sound]: Proofs/CheckSound.v) *)
+Theorem C06_straight_statement_sound : forall f1 f2 nest rec arec t, straight_head t = true ->
+  sound (fun _ _ => True) (edispatch f1 nest rec t) (adispatch f2 nest arec t).
+Proof. exact straight_statement_sound. Qed.
+
+Theorem C06_dispatchers : forall f nest rec arec,
+  evaluate_statement_body f nest rec =
+    (tr <- get enable_tracing ;;
+     (if tr then l <- get_line_number ;; match l with Some n => push_output (OTrace n) | None => ret tt end else ret tt) ;;;
+     t <- next_token ;; edispatch f nest rec t)
+  /\ an_statement_body f nest arec = (t <-- lift next_token ;; adispatch f nest arec t).
+Proof. intros. split; reflexivity. Qed.
+
 (* non-vacuity: a fresh interpreter and a fresh analyzer state looking at the
    immediate line  (A + 1) * 2 < N(3) OR B$ = "x" : related, accepted as a number *)
 Example C06_sound_example :
@@ -144,3 +163,5 @@ Print Assumptions C06_comparisons_are_numbers.
 Print Assumptions C06_expression_check_sound.
 Print Assumptions C06_assignment_check_sound.
 Print Assumptions C06_print_check_sound.
+Print Assumptions C06_straight_statement_sound.
+Print Assumptions C06_dispatchers.
